@@ -3,8 +3,9 @@
 // Output :  (s x0) <rhs0> (s x1) <rhs1> ... | <reduced1> <reduced2> ...
 //
 // Oracle (independent of the Lean checker): on the real objects
-//   * every replacement symbol is a Symbol, not among free_symbols(inputs), pairwise distinct;
-//   * free_symbols(rhs_i) contains no replacement symbol with index >= i;
+//   * every replacement symbol is a Symbol, not among atoms<Symbol>(inputs) (all occurrences, also
+//     inside Derivative / Subs binders and points), pairwise distinct;
+//   * atoms<Symbol>(rhs_i) contains no replacement symbol with index >= i;
 //   * substituting the replacements back with the library's own `xreplace`, last to first, gives
 //     expressions `eq` to the inputs, at the latest after `expand`; what is still not `eq` (expand
 //     does not enter function arguments, b**(1+z) vs b*b**z) is decided by value at 6 generic
@@ -15,6 +16,7 @@
 #include "c36_eval.h"
 #include <symengine/visitor.h>
 #include <symengine/subs.h>
+#include <symengine/derivative.h>
 
 using namespace SymEngine;
 
@@ -45,9 +47,11 @@ std::string hx_run(const std::string &line, std::string &oracle)
         oracle = "FAIL:length:" + tostr(red.size());
         return out;
     }
+    // every Symbol that occurs anywhere in the inputs, also as the variable of a Derivative or as a
+    // variable / in a point of a Subs (free_symbols would leave bound variables out)
     set_basic insyms;
     for (auto &e : exprs) {
-        set_basic s = free_symbols(*e);
+        set_basic s = atoms<Symbol>(*e);
         insyms.insert(s.begin(), s.end());
     }
     set_basic repsyms;
@@ -70,7 +74,7 @@ std::string hx_run(const std::string &line, std::string &oracle)
         }
     }
     for (size_t i = 0; i < reps.size(); i++) {
-        set_basic fs = free_symbols(*reps[i].second);
+        set_basic fs = atoms<Symbol>(*reps[i].second);
         for (size_t k = i; k < reps.size(); k++)
             if (fs.count(reps[k].first)) {
                 oracle = "FAIL:order:" + reps[i].first->__str__() + " uses " + reps[k].first->__str__();
@@ -443,6 +447,19 @@ void hx_gen(Rng &rng, const std::string &tier)
         };
         for (auto &v : fixed)
             emit(opline(v), "fixed");
+        // x0 / x1 occur only inside a Derivative / Subs: the invented symbols must skip these names
+        {
+            RCP<const Symbol> x0 = symbol("x0"), x1 = symbol("x1");
+            RCP<const Basic> d0 = function_symbol("f", x0)->diff(x0);
+            RCP<const Basic> d1 = function_symbol("g", {x0, x1})->diff(x1);
+            emit(opline({add(d0, sin(add(x, y))), cos(add(x, y))}), "binders");
+            emit(opline({add(d0, sqrt(mul(x, y))), mul(exp(mul(x, y)), d1), function_symbol("f", mul(x, y))}), "binders");
+            map_basic_basic pt;
+            pt[x1] = add(x, y);
+            emit(opline({mul(make_rcp<const Subs>(function_symbol("f", x1)->diff(x1), pt), z), pow(add(x, y), integer(2)),
+                         sin(mul(z, add(x, y)))}),
+                 "binders");
+        }
         // user functions named like the internal markers of opt_cse (known finding)
         emit(opline({function_symbol("add", {x, y})}), "userfn");
         emit(opline({add(function_symbol("mul", {x, y}), sin(function_symbol("pow", {x, y})))}), "userfn");
@@ -473,7 +490,7 @@ void hx_gen(Rng &rng, const std::string &tier)
                 vec_basic u = common_args(g, rng.coin());
                 v.insert(v.end(), u.begin(), u.end());
                 v.push_back(g.node(2));
-            } else if (fam < 96) {
+            } else if (fam < 93) {
                 // inputs that already use the names x0, x1, ... (the numbering must skip them)
                 tag = "xnames";
                 RCP<const Basic> a = g.node(2);
@@ -485,6 +502,43 @@ void hx_gen(Rng &rng, const std::string &tier)
                 v.push_back(add(u));
                 v.push_back(mul(a, symbol("x" + std::to_string(rng.below(4)))));
                 v.push_back(sin(a));
+            } else if (fam < 97) {
+                // the names x0, x1, ... occur ONLY inside Derivative / Subs nodes (as the variable, in the
+                // differentiated expression, in the substitution point) and inside function arguments; the
+                // repeated subexpressions elsewhere force cse to invent symbols, which must skip these names
+                tag = "binders";
+                auto xs = [&](int k) { return rcp_static_cast<const Symbol>(symbol("x" + std::to_string(k))); };
+                int k0 = (int)rng.below(2), k1 = 1 + (int)rng.below(2);
+                RCP<const Basic> a = g.node(1), b = g.node(1);
+                RCP<const Basic> shared1 = add(a, b), shared2 = mul(a, b);
+                RCP<const Basic> d0 = function_symbol("f", xs(k0))->diff(xs(k0));
+                RCP<const Basic> d1 = function_symbol("g", {xs(k0), xs(k1)})->diff(xs(k1));
+                RCP<const Basic> d2 = function_symbol("f", mul(xs(k1), xs(k1)))->diff(xs(k1)); // Subs * 2*x
+                map_basic_basic pt;
+                pt[xs(2)] = rng.coin() ? rcp_static_cast<const Basic>(xs(k0)) : shared1;
+                RCP<const Basic> sb = make_rcp<const Subs>(function_symbol("f", xs(2))->diff(xs(2)), pt);
+                switch (rng.below(4)) {
+                    case 0:
+                        v.push_back(add(d0, sin(shared1)));
+                        v.push_back(cos(shared1));
+                        break;
+                    case 1:
+                        v.push_back(add(d0, sqrt(shared2)));
+                        v.push_back(mul(exp(shared2), d1));
+                        v.push_back(function_symbol("f", shared2));
+                        break;
+                    case 2:
+                        v.push_back(mul(sb, shared1));
+                        v.push_back(pow(shared1, integer(2)));
+                        v.push_back(add(d1, shared2));
+                        v.push_back(sin(shared2));
+                        break;
+                    default:
+                        v.push_back(function_symbol("g", {d0, shared1}));
+                        v.push_back(add(shared1, d2));
+                        v.push_back(mul(shared1, integer(3)));
+                        break;
+                }
             } else {
                 tag = "userfn";
                 const char *names[] = {"add", "mul", "pow"};
